@@ -27,6 +27,7 @@ multiset of error classes."""
 import concurrent.futures, os, random, re, subprocess, time
 from . import common, suites
 import corpus
+import opts as optsmod
 
 GEN_DIR = os.path.join(corpus.HERE, "gen_runner")
 GEN_EXE = os.path.join(corpus.TARGET, "release", "gen_runner")
@@ -225,6 +226,10 @@ def unusual_grammars():
     # default recursion_limit in the drop-check of the nested content types (known finding F-DEPTH; pest_derive compiles both)
     add("chain_26_ok", chain([f"q{i}" for i in range(26)]), mutate=False)
     add("deep_chain_31", chain([f"q{i}" for i in range(31)]), mutate=False)
+    # the same mechanism through ONE rule: the un-optimized AST of `a ~ b ~ c ~ …` is left-nested and only the right spine is
+    # flattened, so with `#[pest_optimizer = false]` 33 terms nest 32 `Seq2<Skipped<…>>` (F-DEPTH); 24 terms must compile
+    add("seq24_raw_ok", "r0 = { " + " ~ ".join(f'"{a}{b}"' for a in "abc" for b in letters[:8]) + " }\n", mutate=False)
+    add("deep_seq33_raw", "r0 = { " + " ~ ".join(f'"{a}{b}"' for a in "abc" for b in letters[:11]) + " }\n", mutate=False)
     add("names_vec_option_box", 'Vec = { Option* ~ "v" }\nOption = { Box? ~ "o" }\nBox = { "b" ~ (Some | None)? }\nSome = { "s" ~ String }\nNone = { "n" }\n'
         'String = { "t"+ }\nr = { Vec ~ Option ~ Box ~ (Some | None){2} ~ String* ~ (Vec ~ Option)+ ~ (Box ~ Vec?)* }\n')
     # two names the runtime's macros use unqualified at the expansion site (found by this check; pest_derive compiles both)
@@ -295,6 +300,35 @@ def counted_grammars():
     add("two_levels", 'r = { (y ~ "c")* ~ "b" }\ny = { ("a"{1,2})+ }\n', more + ["acb", "aacacb", "aaacb"])
     add("min_in_star_atomic", 'r = ${ (("a"{2,} ~ "b"){1,2})* ~ "c" }\n', more + ["aabc", "aabaabc", "aabaabaabc"])
     add("nullable_bounded", 'r = { (("a"?){,2} ~ "b")* ~ "c" }\n', more + ["bc", "abbc", "aabc"])
+    return gs
+
+
+def recursive_part(tier, seed):
+    """The recursive part of the corpus, for the boxing analysis (`collect_reachability` in generator/src/graph.rs decides which
+    rules are boxed under `#[box_only_if_needed]`): C20's hand-written recursive grammars and its systematic cycle family
+    (cycle length 1..6 x definition order x leading / trailing rules x edge container, interlocking cycles; imported from
+    harness/opts.py), plus ordinary arithmetic-expression grammars whose 4- and 5-rule cycles are written top-down and are
+    followed by terminal rules (`num`, `WHITESPACE`) that gain nothing in any pass of the analysis."""
+    gs = []
+    for g in optsmod.recursive_grammars() + optsmod.cycle_family(tier, seed):
+        gs.append({"gid": g["gid"], "text": g["text"], "class": "valid", "recursive": True, "mutate": False})
+
+    def add(name, text):
+        gs.append({"gid": "rec_" + name, "text": text, "class": "valid", "recursive": True, "mutate": False})
+    NUM, WS = 'num = @{ ASCII_DIGIT+ }\n', 'WHITESPACE = _{ " " }\n'
+    arith4 = ('expr = { term ~ (("+" | "-") ~ term)* }\nterm = { factor ~ (("*" | "/") ~ factor)* }\n'
+              'factor = { "-"? ~ atom }\natom = { num | "(" ~ expr ~ ")" }\n')
+    arith5 = ('expr = { term ~ (("+" | "-") ~ term)* }\nterm = { power ~ (("*" | "/") ~ power)* }\npower = { factor ~ ("^" ~ factor)? }\n'
+              'factor = { "-"? ~ atom }\natom = { num | "(" ~ expr ~ ")" }\n')
+    add("arith4_num_ws", arith4 + NUM + WS)
+    add("arith4_num", arith4 + NUM)
+    add("arith4_ws", arith4.replace("num |", "ASCII_DIGIT+ |") + WS)
+    add("arith4_bare", arith4.replace("num |", "ASCII_DIGIT+ |"))
+    add("arith4_num_first", NUM + WS + arith4)
+    add("arith5_num_ws", arith5 + NUM + WS)
+    add("arith4_atomic_num_comment", arith4 + NUM + WS + 'COMMENT = @{ "#" ~ (!NEWLINE ~ ANY)* }\n')
+    add("stmt_expr", 'prog = { SOI ~ stmt* ~ EOI }\nstmt = { ident ~ "=" ~ expr ~ ";" | "{" ~ stmt* ~ "}" }\n' + arith4.replace("num |", "num | ident |")
+        + NUM + 'ident = @{ ASCII_ALPHA+ }\n' + WS)
     return gs
 
 
@@ -715,6 +749,7 @@ def build_corpus(tier, seed):
         gs.append({"gid": g["gid"], "text": g["text"], "class": "valid", "random": True})
     gs += unusual_grammars()
     gs += counted_grammars()
+    gs += recursive_part(tier, seed)
     valid = list(gs)
     per_family = 100 if quick else 420
     for cls in FAMILIES:
@@ -1248,6 +1283,60 @@ def emitted_static(ctx, glist, model_rep, attrs, label, path):
     return rep
 
 
+def module_graph(txt):
+    """({rule: rules its emitted `rule!` type mentions}, {rule: "true"|"false"}) of a `(nodegrammar …)` S-expression
+    (rule 0 is EOI; the skip type sits behind AtomicRepeat's Vec and is not an edge: as harness/opts.ref_edges)."""
+    sx = corpus.parse_sexp(txt)
+    rules = [r for r in sx[3:] if isinstance(r, list) and r and r[0] == "rule"]
+    names = [r[1] for r in rules]
+    edges, boxed = {}, {}
+
+    def refs(e, out):
+        if isinstance(e, list):
+            if e and e[0] == "ref":
+                k = int(e[1])
+                if 1 <= k <= len(names):
+                    out.add(names[k - 1])
+            for c in e[1:]:
+                refs(c, out)
+    for r in rules:
+        out = set()
+        refs(r[5], out)
+        edges[r[1]] = sorted(out)
+        boxed[r[1]] = r[4]
+    return edges, boxed
+
+
+def has_cycle(edges):
+    return optsmod.unboxed_cycle(edges, {r: "false" for r in edges}) is not None
+
+
+def cycles_boxed(ctx, glist, attrs, stats):
+    """rustc-independent: in the module the real generator emits under `attrs` (T-gen extraction) every reference cycle
+    contains a boxed rule — otherwise the rule structs form an infinitely sized type (E0072).  Uses C20's
+    `opts.unboxed_cycle`.  Returns the gids of the grammars whose emitted module is recursive."""
+    from . import tgen
+    tgen.ensure_tool()
+    res = tgen.run_tool([(g, attrs) for g in glist])
+    rec, bad, unread = [], 0, 0
+    for g, (st, txt) in zip(glist, res):
+        if st != "OK" or not txt.startswith("(nodegrammar "):
+            unread += 1
+            continue
+        edges, boxed = module_graph(txt)
+        if not has_cycle(edges):
+            continue
+        rec.append(g["gid"])
+        cyc = optsmod.unboxed_cycle(edges, boxed)
+        if cyc:
+            bad += 1
+            ctx.violations.append({"what": "reference cycle without a boxed rule in the emitted module (infinitely sized type)",
+                                   "case": {"grammar": g["text"], "gid": g["gid"], "class": g.get("class"), "options": attrs or "(default)"},
+                                   "cycle": cyc, "boxed": {r: boxed[r] for r in cyc}})
+    stats[attrs or "(default)"] = {"modules": len(glist), "recursive": len(rec), "unboxed_cycles": bad, "not_extracted": unread}
+    return set(rec)
+
+
 def tie_wf(ctx, compiled, rep, cases, impl_lines, sexp_path, cmd="wf", label=""):
     """Dynamic part: every case of a grammar with `wfCheck = true` is run on the Lean model with exactly the fuel of theorem
     `C11_terminates_checked` (`entryFuel G (wfRank G) |input|`, command `wf <gid> <rule> <entry> <hex>`): the model must
@@ -1550,9 +1639,9 @@ def check_C11(ctx):
     dist["not_wellfounded_reasons"] = why_not
     dist["not_wellfounded_examples"] = [g["text"][:120] for g in acc if g["wf_reason"] is not None][:6]
     dist["recursion_through_skip_examples"] = [t[:160] for t in skip_rec[:4]]
-    must = [g for g in acc if g.get("compile", True) and (g.get("unusual") or g["gid"].startswith("s_"))]
-    pool = [g for g in acc if g.get("compile", True) and not (g.get("unusual") or g["gid"].startswith("s_"))]
-    nsample = 500 if quick else 2000
+    must = [g for g in acc if g.get("compile", True) and (g.get("unusual") or g.get("recursive") or g["gid"].startswith("s_"))]
+    pool = [g for g in acc if g.get("compile", True) and not (g.get("unusual") or g.get("recursive") or g["gid"].startswith("s_"))]
+    nsample = 650 if quick else 2300
 
     def weight(g):
         nrules = len(g["rules"])
@@ -1667,6 +1756,29 @@ def check_C11(ctx):
     ctx.evaluations += len(acc_set)
     dist["compile_other_options"] = {RAW: {"grammars": len(raw_set), "compiled": len(raw_compiled), "not_compiling": rstats.get("not_compiling", [])},
                                      ACC: {"grammars": len(acc_set), "compiled": len(acc_compiled), "not_compiling": astats.get("not_compiling", [])}}
+    # reduced boxing: under `#[box_only_if_needed]` only the rules the generator's reachability analysis finds on a cycle are
+    # boxed; a recursive grammar whose cycle it misses has no finite size (rustc E0072).  The recursive part of the compiled
+    # grammars (C20's cycle family, the arithmetic grammars, every sampled grammar whose emitted module has a reference cycle)
+    # is built with it, alone and together with `#[pest_optimizer = false]`; independently of rustc, every reference cycle of
+    # the emitted module must contain a boxed rule (under every option set used here).
+    t0 = time.time()
+    BOX, BOXRAW = "#[box_only_if_needed]", "#[pest_optimizer = false] #[box_only_if_needed]"
+    cstats = {}
+    rec_gids = cycles_boxed(ctx, compiled, "", cstats)
+    rec_set = [g for g in compiled if g.get("recursive")] + [g for g in compiled if g["gid"] in rec_gids and not g.get("recursive")][:120 if quick else 600]
+    cycles_boxed(ctx, [g for g in rec_set if g["gid"] in {x["gid"] for x in raw_compiled}], RAW, cstats)
+    for attrs, pfx, wsn in ((BOX, "d", "box"), (BOXRAW, "e", "boxraw")):
+        cycles_boxed(ctx, rec_set, attrs, cstats)
+        bstats = {}
+        bcomp, _ = compile_sample(ctx, rec_set, tier, bstats, attrs=attrs, prefix=pfx, wsname=os.path.join(common.BUILD, f"ws_c11_{wsn}_{tier}"),
+                                  report=True) if rec_set else ([], {})
+        ctx.evaluations += len(rec_set)
+        dist["compile_other_options"][attrs] = {"grammars": len(rec_set), "compiled": len(bcomp), "not_compiling": bstats.get("not_compiling", [])}
+    dist["cycles_boxed"] = cstats
+    dist["recursive_part"] = {"family_and_handwritten": sum(bool(g.get("recursive")) for g in rec_set), "sampled_recursive": sum(not g.get("recursive") for g in rec_set)}
+    timing["boxing_s"] = round(time.time() - t0, 1)
+    if sum(bool(g.get("recursive")) for g in rec_set) < 100:
+        ctx.tie_broken("corpus-coverage", {"error": "fewer than 100 grammars of the recursive family reached the reduced-boxing builds"})
     lean_raw = lean_static(ctx, raw_compiled, sexp_path, cmd="wfraw", which=4, label="[raw]") if raw_compiled else {}
     lean_raw_e = emitted_static(ctx, raw_compiled, lean_raw, RAW, "[raw]", os.path.join(common.BUILD, f"c11_{tier}_emitted_raw.sexp")) if raw_compiled else {}
     raw_wf = [g for g in raw_compiled if g["gid"] in cgids and wf_of(g, lean_raw_e, lean_raw)]
